@@ -298,7 +298,8 @@ func (e *vestEnv) genOp(r *rand.Rand, now time.Time) vOp {
 		if r.Intn(12) == 0 {
 			amt = new(big.Int).Exp(big.NewInt(10), big.NewInt(31), nil) // more than the balance
 		}
-		durs := []time.Duration{time.Nanosecond, time.Second, time.Minute, time.Hour, 5 * time.Hour, 36 * time.Hour, 0, -time.Second}
+		// incl. lock ends centuries away (beyond what UnixNano can represent)
+		durs := []time.Duration{time.Nanosecond, time.Second, time.Minute, time.Hour, 5 * time.Hour, 36 * time.Hour, 0, -time.Second, 250 * 365 * 24 * time.Hour, 1<<63 - 1}
 		d := durs[r.Intn(len(durs))]
 		vt := e.types[r.Intn(len(e.types))].name
 		if r.Intn(15) == 0 {
